@@ -668,7 +668,8 @@ def facet_geometries(ctx, R, res, rng, alphas):
             if len(res.samples) < 3 and r[0] == 'ok' and full:
                 res.sample({'rectangular': case, 'block_name_list[:4]': r[1][3][:4], 'blocks': len(r[1][3])})
             # a non-default surface: columns lose their upper layers
-            if g is not None and nx * ny <= 400 and nz >= 2 and rng.random() < 0.7:
+            # (only on a geometry with the requested numbers of layers and columns: a wrong count is already a recorded violation)
+            if g is not None and nx * ny <= 400 and nz >= 2 and rng.random() < 0.7 and len(g.layerlist) == nz + 1 and len(g.columnlist) == nx * ny:
                 first = []
                 for col in g.columnlist:
                     k = rng.choice([1, 1, 1, 2, rng.randint(1, nz), nz])       # first layer (index in layerlist) that contains the column
